@@ -20,7 +20,7 @@ func VerifC12Threshold() {
 		// strictly more than two thirds
 		verifrt.Assert(new(big.Int).Mul(p, big.NewInt(3)).Cmp(new(big.Int).Mul(t, big.NewInt(2))) > 0, "exceeding means strictly more than 2/3")
 	}
-	verifrt.Assert(ThresholdA == 2 && ThresholdB == 3, "configured fraction is 2/3")
+	verifrt.Assert(verifrt.All(ThresholdA == 2, ThresholdB == 3), "configured fraction is 2/3")
 }
 
 // VerifC12Median: Median of n prices is the middle element (odd n) or the mean of the two
@@ -45,7 +45,7 @@ func VerifC12Median() {
 			ge++
 		}
 	}
-	verifrt.Assert(2*le >= n && 2*ge >= n, "at least half of the values lie on each side of the median")
+	verifrt.Assert(verifrt.All(2*le >= n, 2*ge >= n), "at least half of the values lie on each side of the median")
 	if n%2 == 1 {
 		found := false
 		for _, v := range orig {
